@@ -177,6 +177,11 @@ pub fn solve_milp_lp_problem_with(
         solve_options.time_limit = Some(limit);
     }
 
+    #[cfg(feature = "verif_hooks")]
+    {
+        solve_options.node_limit = crate::verif_hooks::milp_node_limit();
+    }
+
     match problem.solve_with(solve_options) {
         Ok(s) => {
             let assignment = microlp_vars
